@@ -1229,6 +1229,12 @@ def _l_pop(I, self, args, kw, fr, site):
     raise Unsupported("list.pop symbolic")
 
 
+@intrinsic("list.popleft")
+def _l_popleft(I, self, args, kw, fr, site):
+    """collections.deque.popleft on a queue modelled as a list: pop(0)"""
+    return _l_pop(I, self, [VInt(0)], kw, fr, site)
+
+
 @intrinsic("list.extend")
 def _l_extend(I, self, args, kw, fr, site):
     o = I.st.heap[self.ref]
